@@ -412,6 +412,9 @@ type Opts struct {
 	NoRegVars bool
 	NoTuples  bool
 	MaxStmts  int
+	// Shape != 0: the program starts with one directed control-flow shape (see shape) before the
+	// random statements
+	Shape int
 }
 
 type gen struct {
@@ -420,6 +423,8 @@ type gen struct {
 	o     Opts
 	ctrs  int
 	inFor int
+	// forceK / forceLoop (when >= 0) replace the next statement-kind / loop-form draw
+	forceK, forceLoop int
 	// variables reserved as loop counters/flags are not assigned by generated bodies
 	reserved map[string]bool
 }
@@ -550,6 +555,9 @@ func (g *gen) stmt(depth int) []*Stmt {
 	if depth <= 0 && k >= 6 {
 		k = g.rng.IntN(6)
 	}
+	if g.forceK >= 0 {
+		k, g.forceK = g.forceK, -1
+	}
 	switch {
 	case k < 3:
 		if !g.o.NoTuples && g.rng.IntN(4) == 0 {
@@ -626,7 +634,11 @@ func (g *gen) stmt(depth int) []*Stmt {
 		g.inFor++
 		body := g.stmts(1+g.rng.IntN(2), depth-1)
 		g.inFor--
-		switch g.rng.IntN(6) {
+		lf := g.rng.IntN(6)
+		if g.forceLoop >= 0 {
+			lf, g.forceLoop = g.forceLoop, -1
+		}
+		switch lf {
 		case 3: // for c = n; f == 0; c-- { if c == 1 { f = 1 }; body }   (counting down, post is a decrement)
 			f := g.newCounter()
 			fv := &Expr{Kind: "var", Name: f}
@@ -711,6 +723,108 @@ func (g *gen) stmt(depth int) []*Stmt {
 	}
 }
 
+// loop draws one loop of the given form (0 endless+break, 1 flag+post+continue, 2 condition only,
+// 3 counting down, 4 two-variable condition, 5 empty body) with a simple body.
+func (g *gen) loop(form int) []*Stmt {
+	g.forceK, g.forceLoop = 8, form
+	return g.stmt(1)
+}
+
+// simple draws one statement with an observable effect and no control flow.
+func (g *gen) simple() []*Stmt {
+	if g.rng.IntN(2) == 0 {
+		return []*Stmt{{Kind: "write", Name: fmt.Sprintf("out%d", g.rng.IntN(len(g.p.Outputs))), E: g.expr(1, nil)}}
+	}
+	return []*Stmt{{Kind: "assign", Name: g.freeVar(), E: &Expr{Kind: "add", L: &Expr{Kind: "var", Name: g.p.Vars[g.rng.IntN(len(g.p.Vars))]}, R: g.lit()}}}
+}
+
+// shape builds one directed control-flow shape; each is a nesting whose exits (break, continue,
+// fallthrough, the jump over an else part) have a neighbouring construct they could be confused with,
+// followed by a statement whose effect shows which exit was taken.
+//
+//	1: a loop ended by break inside a case body, with a statement after the loop in the same case
+//	2: a switch inside a loop, a case body leaving the switch with break, a statement after the switch
+//	3: an if/else whose then-part ends with a loop (its last line is the loop's back jump)
+//	4: a case falling through into default, and one falling through into a case list
+//	5: an else-if chain whose middle branch ends with a loop
+//	6: a loop whose body ends with an if/else both of whose branches end with continue / break
+func (g *gen) shape(k int) []*Stmt {
+	v := g.p.Vars[g.rng.IntN(len(g.p.Vars))]
+	vv := &Expr{Kind: "var", Name: v}
+	a := uint64(g.rng.IntN(4))
+	lit := func(x uint64) *Expr { return &Expr{Kind: "lit", Val: x} }
+	set := &Stmt{Kind: "assign", Name: v, E: lit(a + uint64(g.rng.IntN(2)))} // the tested value or its neighbour
+	forms := []int{0, 0, 1, 2, 3, 4}
+	switch k {
+	case 1:
+		sw := &Stmt{Kind: "switch", E: vv}
+		c := Case{Vals: []uint64{a}}
+		if g.rng.IntN(2) == 0 {
+			c.Body = g.simple()
+		}
+		c.Body = append(c.Body, g.loop(0)...)
+		c.Body = append(c.Body, g.simple()...)
+		sw.Cases = append(sw.Cases, c)
+		if g.rng.IntN(2) == 0 {
+			sw.Cases = append(sw.Cases, Case{Vals: []uint64{a + 1}, Body: append(g.loop(forms[g.rng.IntN(len(forms))]), g.simple()...)})
+		}
+		if g.rng.IntN(2) == 0 {
+			sw.Cases = append(sw.Cases, Case{Body: append(g.loop(0), g.simple()...)})
+		}
+		return append([]*Stmt{set, sw}, g.simple()...)
+	case 2:
+		c := g.newCounter()
+		f := g.newCounter()
+		cv, fv := &Expr{Kind: "var", Name: c}, &Expr{Kind: "var", Name: f}
+		n := uint64(2 + g.rng.IntN(3))
+		loop := &Stmt{Kind: "for", Init: &Stmt{Kind: "assign", Name: c, E: lit(0)}, Post: &Stmt{Kind: "inc", Name: c}, E: fv, E2: lit(0)}
+		loop.Body = []*Stmt{{Kind: "if", E: cv, E2: lit(n - 1), Body: []*Stmt{{Kind: "assign", Name: f, E: lit(1)}}}}
+		sw := &Stmt{Kind: "switch", E: cv}
+		g.inFor++
+		b0 := append(g.simple(), &Stmt{Kind: "if", E: vv, E2: lit(a), Body: []*Stmt{{Kind: "break"}}})
+		b0 = append(b0, g.simple()...)
+		sw.Cases = append(sw.Cases, Case{Vals: []uint64{uint64(g.rng.IntN(int(n)))}, Body: b0})
+		sw.Cases = append(sw.Cases, Case{Body: append(g.simple(), &Stmt{Kind: "break"})})
+		g.inFor--
+		loop.Body = append(loop.Body, sw)
+		loop.Body = append(loop.Body, g.simple()...)
+		return append([]*Stmt{set, {Kind: "assign", Name: f, E: lit(0)}, loop}, g.simple()...)
+	case 3:
+		s := &Stmt{Kind: "if", E: vv, E2: lit(a), HasEl: true}
+		s.Body = append(g.simple(), g.loop(forms[g.rng.IntN(len(forms))])...)
+		s.Else = g.simple()
+		if g.rng.IntN(3) == 0 {
+			s.Else = append(s.Else, g.loop(forms[g.rng.IntN(len(forms))])...)
+		}
+		return append([]*Stmt{set, s}, g.simple()...)
+	case 4:
+		sw := &Stmt{Kind: "switch", E: vv}
+		sw.Cases = append(sw.Cases, Case{Vals: []uint64{a}, Body: g.simple(), Fall: true})
+		if g.rng.IntN(2) == 0 {
+			sw.Cases = append(sw.Cases, Case{Vals: []uint64{a + 2, a + 3}, Body: g.simple(), Fall: g.rng.IntN(2) == 0})
+		}
+		sw.Cases = append(sw.Cases, Case{Body: g.simple()})
+		return append([]*Stmt{set, sw}, g.simple()...)
+	case 5:
+		in := &Stmt{Kind: "if", E: vv, E2: lit(a + 1), Body: append(g.simple(), g.loop(forms[g.rng.IntN(len(forms))])...), HasEl: true, Else: g.simple()}
+		s := &Stmt{Kind: "if", E: vv, E2: lit(a), Body: g.simple(), HasEl: true, Else: []*Stmt{in}, ElseIf: true}
+		return append([]*Stmt{set, s}, g.simple()...)
+	default:
+		c := g.newCounter()
+		cv := &Expr{Kind: "var", Name: c}
+		n := uint64(2 + g.rng.IntN(3))
+		loop := &Stmt{Kind: "for"}
+		g.inFor++
+		tail := &Stmt{Kind: "if", E: vv, E2: lit(a), Body: append(g.simple(), &Stmt{Kind: "continue"}), HasEl: true,
+			Else: append(g.simple(), &Stmt{Kind: []string{"break", "continue"}[g.rng.IntN(2)]})}
+		g.inFor--
+		loop.Body = []*Stmt{{Kind: "if", E: cv, E2: lit(n), Body: []*Stmt{{Kind: "break"}}}, {Kind: "inc", Name: c}}
+		loop.Body = append(loop.Body, g.simple()...)
+		loop.Body = append(loop.Body, tail)
+		return append([]*Stmt{set, {Kind: "assign", Name: c, E: lit(0)}, loop}, g.simple()...)
+	}
+}
+
 // Generate draws one program.
 func Generate(rng *rand.Rand, o Opts) *Prog {
 	if o.Rsize == 0 {
@@ -720,7 +834,7 @@ func Generate(rng *rand.Rand, o Opts) *Prog {
 		o.MaxStmts = 8
 	}
 	p := &Prog{Rsize: o.Rsize}
-	g := &gen{rng: rng, p: p, o: o, reserved: map[string]bool{}}
+	g := &gen{rng: rng, p: p, o: o, reserved: map[string]bool{}, forceK: -1, forceLoop: -1}
 	for k := 0; k < rng.IntN(3); k++ {
 		p.Inputs = append(p.Inputs, 21+k+rng.IntN(2)*10)
 	}
@@ -753,7 +867,10 @@ func Generate(rng *rand.Rand, o Opts) *Prog {
 			p.Funcs = append(p.Funcs, f)
 		}
 	}
-	p.Body = g.stmts(2+rng.IntN(o.MaxStmts), 2)
+	if o.Shape != 0 {
+		p.Body = g.shape(o.Shape)
+	}
+	p.Body = append(p.Body, g.stmts(2+rng.IntN(o.MaxStmts), 2)...)
 	// end with a write of every variable so that all final state is observable
 	for i, v := range p.Vars {
 		p.Body = append(p.Body, &Stmt{Kind: "write", Name: fmt.Sprintf("out%d", i%len(p.Outputs)), E: &Expr{Kind: "var", Name: v}})
